@@ -51,23 +51,34 @@ def parseSlice (a b c : String) : Option Slice := do
   let a ← optInt? a; let b ← optInt? b; let c ← optInt? c
   pure ⟨a, b, c⟩
 
-def parseOp (s : String) : Option (Op Int) :=
+/-- An iterable argument that may be the list object itself (`@`): a function of
+the current contents. -/
+def iterArg? (s : String) : Option (List Int → List Int) :=
+  if clean s = "@" then some (fun l => l) else (iterList? s).map (fun xs _ => xs)
+
+/-- An operation as written on the line: a function of the current contents
+(only `@` arguments depend on them). -/
+def parseOp (s : String) : Option (List Int → Op Int) :=
+  let const (o : Option (Op Int)) : Option (List Int → Op Int) := o.map (fun op _ => op)
   match words s with
-  | ["si", i, x] => do pure (.setIdx (← int? i) (← int? x))
-  | ["ss", a, b, c, xs] => do pure (.setSlice (← parseSlice a b c) (← iterList? xs))
-  | ["di", i] => do pure (.delIdx (← int? i))
-  | ["ds", a, b, c] => do pure (.delSlice (← parseSlice a b c))
-  | ["ap", x] => do pure (.append (← int? x))
-  | ["ex", xs] => do pure (.extend (← iterList? xs))
-  | ["ia", xs] => do pure (.iadd (← iterList? xs))
-  | ["im", n] => do pure (.imul (← int? n))
-  | ["in", i, x] => do pure (.insert (← int? i) (← int? x))
-  | ["po", i] => do pure (.pop (← int? i))
-  | ["rm", x] => do pure (.remove (← int? x))
-  | ["cl"] => some .clear
-  | ["rv"] => some .reverse
-  | ["so"] => some (.sort 0)
-  | ["sk", k, r] => do pure (.sort (2 * (← k.toNat?) + (← r.toNat?)))
+  | ["si", i, x] => const (do pure (.setIdx (← int? i) (← int? x)))
+  | ["ss", a, b, c, xs] => do
+    let sl ← parseSlice a b c
+    let f ← iterArg? xs
+    pure (fun l => .setSlice sl (f l))
+  | ["di", i] => const (do pure (.delIdx (← int? i)))
+  | ["ds", a, b, c] => const (do pure (.delSlice (← parseSlice a b c)))
+  | ["ap", x] => const (do pure (.append (← int? x)))
+  | ["ex", xs] => do let f ← iterArg? xs; pure (fun l => .extend (f l))
+  | ["ia", xs] => do let f ← iterArg? xs; pure (fun l => .iadd (f l))
+  | ["im", n] => const (do pure (.imul (← int? n)))
+  | ["in", i, x] => const (do pure (.insert (← int? i) (← int? x)))
+  | ["po", i] => const (do pure (.pop (← int? i)))
+  | ["rm", x] => const (do pure (.remove (← int? x)))
+  | ["cl"] => const (some .clear)
+  | ["rv"] => const (some .reverse)
+  | ["so"] => const (some (.sort 0))
+  | ["sk", k, r] => const (do pure (.sort (2 * (← k.toNat?) + (← r.toNat?))))
   | _ => none
 
 def showNIdx : NIdx → String
@@ -81,17 +92,33 @@ def showRes : Except Exc (Out Int) → String
   | .error e => s!"err {e.name}"
   | .ok o => s!"ok {showIntList o.items} {showOpt toString o.ret} {showOpt showEvent o.event}"
 
-def pyRun : List Int → List (Op Int) → List String
+def pyRun : List Int → List (List Int → Op Int) → List String
   | _, [] => []
-  | l, op :: ops =>
-    match pyStep (mkEnv (fun _ x => .ok x)) l op with
+  | l, f :: ops =>
+    match pyStep (mkEnv (fun _ x => .ok x)) l (f l) with
     | .error e => s!"err {e.name}" :: pyRun l ops
     | .ok (l', r) => s!"ok {showIntList l'} {showOpt toString r} -" :: pyRun l' ops
 
-def parseTOp (s : String) : Option (TOp Int) :=
+/-- `TraitList.run` with the arguments resolved against the current contents. -/
+def tlRun (E : Env Int) : List Int → List (List Int → Op Int) → List String
+  | _, [] => []
+  | l, f :: ops =>
+    match TraitList.step E l (f l) with
+    | .error e => showRes (.error e) :: tlRun E l ops
+    | .ok o => showRes (.ok o) :: tlRun E o.items ops
+
+def parseTOp (s : String) : Option (List Int → TOp Int) :=
   match words s with
-  | ["as", xs] => do pure (.assign (← intList? xs))
-  | _ => (parseOp s).map .call
+  | ["as", xs] => do let ys ← intList? xs; pure (fun _ => .assign ys)
+  | _ => (parseOp s).map (fun f l => .call (f l))
+
+/-- `TraitListObject.run` with the arguments resolved against the current contents. -/
+def tloRun (c : LenCfg) (E : Env Int) : List Int → List (List Int → TOp Int) → List String
+  | _, [] => []
+  | l, f :: ops =>
+    match TraitListObject.tstep c E l (f l) with
+    | .error e => showRes (.error e) :: tloRun c E l ops
+    | .ok o => showRes (.ok o) :: tloRun c E o.items ops
 
 def parseCfg (kind : String) : Option LenCfg :=
   match kind.splitOn ":" with
@@ -114,14 +141,14 @@ def handle (line : String) : String :=
         | some ops =>
           match TraitList.init E init with
           | .error e => s!"err {e.name}"
-          | .ok l => " ; ".intercalate ((TraitList.run E l ops).map showRes)
+          | .ok l => " ; ".intercalate (tlRun E l ops)
         | none => "bad-case"
       else
         match parseCfg kind, (fields ops ";").mapM parseTOp with
         | some c, some ops =>
           match TraitListObject.assign c E init with
           | .error e => s!"err {e.name}"
-          | .ok l => " ; ".intercalate ((TraitListObject.run c E l ops).map showRes)
+          | .ok l => " ; ".intercalate (tloRun c E l ops)
         | _, _ => "bad-case"
     | _, _ => "bad-case"
   | _ => "bad-case"
